@@ -1,7 +1,7 @@
 """C18 - random generation stays within the requested bounds and covers them."""
 from ..core import rng_for, rand_digits, M64, ndig, Cmd, U, I, PANIC, Problem, chk_big, BV
 
-THOROUGH_SEEDS = 4   # the thorough tier repeats its staged workload over this many derived seeds
+THOROUGH_SEEDS = 3   # the thorough tier repeats its staged workload over this many derived seeds
 RULE = ('deterministic byte-stream RNGs (scripted prefix + zero / ones / counter / splitmix tail) that log every byte handed out; '
         'the monitor decodes the same stream with an independent model: gen_biguint(n) = first ceil(n/32) little-endian u32 words '
         'with the top word shifted down, consuming exactly those bytes; bounded sampling = first candidate below the bound, '
